@@ -7,6 +7,9 @@ import "encoding/binary"
 type Sec struct {
 	RawSize int
 	Gap     int // bytes of gap before this section's raw data in the file
+	// EmptyPtrRel: for a section without raw data, PointerToRawData = SizeOfHeaders + EmptyPtrRel
+	// (0 = pointer 0). The Authenticode algorithm ignores such sections whatever they point at.
+	EmptyPtrRel int
 }
 
 type Layout struct {
@@ -62,6 +65,9 @@ func Build(l Layout) []byte {
 		size[idx] = sz
 		if sz == 0 {
 			ptr[idx] = 0
+			if s.EmptyPtrRel != 0 {
+				ptr[idx] = sizeOfHeaders + s.EmptyPtrRel
+			}
 			continue
 		}
 		ptr[idx] = off
